@@ -88,8 +88,8 @@ type task struct {
 func (t task) arg() string { return fmt.Sprintf("%s|%s|%d|%d", t.part, t.cfg, t.from, t.to) }
 
 func plan(c *vf.Ctx) []task {
-	mul := c.Pick(1, 20)
-	mulHeavy := c.Pick(1, 10) // parts that replay every strict prefix in the thorough tier
+	mul := c.Pick(1, 12)
+	mulHeavy := c.Pick(1, 5) // parts that replay every strict prefix in the thorough tier
 	type item struct {
 		part, cfg string
 		n, batch  int
@@ -273,12 +273,22 @@ func main() {
 	wd := time.Duration(c.Pick(4, 30)) * time.Minute
 	ch := make(chan task)
 	var wg sync.WaitGroup
+	type taskDur struct {
+		Task    string  `json:"task"`
+		Seconds float64 `json:"seconds"`
+	}
+	var durMu sync.Mutex
+	var durs []taskDur
 	for i := 0; i < par; i++ {
 		wg.Add(1)
 		go func() {
 			defer wg.Done()
 			for t := range ch {
+				t0 := time.Now()
 				c.RunWorker(t.arg(), wd, workerGORACE)
+				durMu.Lock()
+				durs = append(durs, taskDur{t.arg(), time.Since(t0).Seconds()})
+				durMu.Unlock()
 			}
 		}()
 	}
@@ -316,6 +326,12 @@ func main() {
 	c.Extra("required_categories", len(required()))
 	c.Extra("required_categories_not_reached", missing)
 	c.Extra("worker_tasks", len(tasks))
+	c.Extra("parallel_workers", par)
+	sort.Slice(durs, func(i, j int) bool { return durs[i].Seconds > durs[j].Seconds })
+	if len(durs) > 5 {
+		durs = durs[:5]
+	}
+	c.Extra("slowest_worker_tasks", durs)
 	if rl, _ := filepath.Glob(filepath.Join(c.Scratch, "race.*")); len(rl) > 0 {
 		c.Extra("processes_with_race_reports_not_judged", fmt.Sprintf("%d (statistics counters of package engine's background compactor; single-threaded workers; DESIGN.md 4.4)", len(rl)))
 	}
